@@ -622,8 +622,13 @@ func fbb.(*Session).writeProposalsAnswer(s, rw, proposals) (nAccepted, err)
   loop 0 invariant props: forall k :: 0 <= k && k < len(proposals) ==> proposals[k] != nil
   loop 1 invariant no-handler: s.h == nil ==> forall k :: 0 <= k && k < len(proposals) ==> proposals[k].answer == '='
   loop 1 invariant unanswered: (forall j :: 0 <= j && j < len(unanswered) ==> 0 <= unanswered[j] && unanswered[j] < len(proposals)) && (forall k :: 0 <= k && k < len(proposals) ==> proposals[k] != nil) && len(check) == $idx + 1
+  # each answer of the handler goes to the proposal it was asked about
+  loop 2 invariant answer-to-its-proposal [C05 C01]: $idx >= 0 ==> proposals[unanswered[$idx]].answer == answers[$idx]
   loop 2 invariant no-handler: s.h == nil ==> forall k :: 0 <= k && k < len(proposals) ==> proposals[k].answer == '='
   loop 2 invariant unanswered: (forall j :: 0 <= j && j < len(unanswered) ==> 0 <= unanswered[j] && unanswered[j] < len(proposals)) && (forall k :: 0 <= k && k < len(proposals) ==> proposals[k] != nil) && len(answers) == len(check) && len(check) == len(unanswered)
+  call fbb.MBoxHandler.GetInboundAnswer requires asked-about-this-proposal [C05 C01]: same($1.mid, p.mid) && $1.size == p.size && $1.compressedSize == p.compressedSize && p == proposals[idx]
+  call fbb.MBoxHandler.GetInboundAnswer set gLastAnswer := $r0
+  loop 3 invariant answer-to-its-proposal [C05 C01]: $idx >= 0 ==> proposals[unanswered[$idx]].answer == gLastAnswer
   loop 3 invariant no-handler: s.h == nil ==> forall k :: 0 <= k && k < len(proposals) ==> proposals[k].answer == '='
   loop 3 invariant unanswered: (forall j :: 0 <= j && j < len(unanswered) ==> 0 <= unanswered[j] && unanswered[j] < len(proposals)) && (forall k :: 0 <= k && k < len(proposals) ==> proposals[k] != nil) && (len(unanswered) > 0 ==> s.h != nil)
   loop 4 invariant no-handler: s.h == nil ==> forall k :: 0 <= k && k < len(proposals) ==> proposals[k].answer == '='
@@ -635,6 +640,7 @@ func fbb.(*Session).writeProposalsAnswer(s, rw, proposals) (nAccepted, err)
 #   received with every block verdict; only accepted proposals are transferred; after
 #   the first error nothing more is processed and the error is returned; a MID is
 #   appended to Received iff its message was processed without error.
+ghost var gLastAnswer ProposalAnswer
 ghost var gInSum int
 ghost var gXferOK *Proposal
 ghost var gMsg *Message
